@@ -105,8 +105,8 @@ def model_texts(gen, items):
                 out.append(annot.group(expand(it["kids"]), it["role"]))
             elif it["role"] == "def":
                 d = defs[it["def"]]
-                out.append(annot.group([annot.tag("Def-expand", it["suffix"]),
-                                        annot.group(gen.expansion(d, it["val"]))]))
+                out.append(annot.group([annot.tag("Def-expand", it["suffix"])] +
+                                       ([annot.group(gen.expansion(d, it["val"]))] if d["content"] else [])))
             else:
                 out.append(it)
         return out
@@ -160,6 +160,9 @@ def candidates(gen, rng):
         (f"(Definition/{nm()}/#, ({vn}/#, {p()}, ({vn}/#)))", False, "the same placeholder twice"),
         (f"(Definition/{nm()}/#, ({p()}/#))", False, "placeholder on a tag that takes no value"),
         (f"(Definition/{nm()}/#)", False, "/# name without content"),
+        (f"(Definition/{nm()}#/#, ({vn}/#, {p()}))", False, "# at the end of the name before /#"),
+        (f"(Definition/{nm()}/#/#, ({vn}/#))", False, "/# twice at the end of the name"),
+        (f"(Definition/{nm()}##/#, ({vn}/#))", False, "## at the end of the name before /#"),
     ]
     two = [x for x in gen.values if x.path != v.path]
     rng.shuffle(out)
@@ -442,7 +445,7 @@ def run_shard(shard, rec):
     schema = env.schema(v)
     gen = annot.AnnotGen(o, rng)
     for si in range(shard["sets"]):
-        gen.make_defs(rng.randrange(3, 7))
+        gen.make_defs(rng.randrange(3, 7), allow_empty=True)
         defs = gen.def_strings()
         check_candidates(schema, candidates(gen, rng), rec, v)
         texts_for_columns = []
@@ -486,7 +489,8 @@ def run_shard(shard, rec):
             d = rng.choice(gen.defs)
             val = gen.def_value(d) if d["takes_value"] else None
             suffix = "/" + d["name"] + ("/" + val if val else "")
-            good = annot.permute([annot.group([annot.tag("Def-expand", suffix), annot.group(gen.expansion(d, val))])], rng)
+            good = annot.permute([annot.group([annot.tag("Def-expand", suffix)] +
+                                              ([annot.group(gen.expansion(d, val))] if d["content"] else []))], rng)
             gcase = dict(kind="def-expand", schema=v, defs=defs, text=annot.render(good, rng), expect="valid")
             rec.case((v, tuple(defs), gcase["text"]))
             check_def_expand_validation(gcase, rec)
